@@ -15,5 +15,6 @@ func TestWorld(t *testing.T) {
 		"C33": runC33,
 		"C31": runC31,
 		"C32": runC32,
+		"C30": runC30,
 	})
 }
